@@ -117,6 +117,23 @@ def end_anchored(p):
     return False
 
 
+def end_admits_newline(p):
+    """the pattern ends with `$` (which also matches before a trailing
+    newline), not with `\\Z`"""
+    items = list(p)
+    while items:
+        op, av = items[-1]
+        if op is sre_c.AT:
+            return av is sre_c.AT_END
+        if op is sre_c.SUBPATTERN:
+            items = list(av[3])
+            continue
+        if op is sre_c.BRANCH:
+            return any(end_admits_newline(alt) for alt in av[1])
+        return False
+    return False
+
+
 def group(p, n):
     """Sub-pattern of capturing group n (or None)."""
     for op, av in p:
